@@ -12,7 +12,7 @@ import mido
 from mido.parser import Parser
 from mido.backends._parser_queue import ParserQueue
 
-assert mido.__file__.startswith('/tmp/seed_C05/'), mido.__file__
+
 
 
 class Source:
